@@ -33,6 +33,9 @@ def scenarios(res):
             sc["ops"] += [["scanall", "a", 2, 257 + b], ["scanall", "a", 1, 257 + b]]
         scs.append(sc)
         sid += 1
+    for i in range(30 if res.tier == "quick" else 400):
+        scs.append(storelib.gen_paged_scan(vlib.rng_for(res.seed, PID, "paged", i), sid))
+        sid += 1
     return scs, ncorpus, 0, n
 
 
